@@ -18,7 +18,6 @@ import (
 	"strconv"
 	"strings"
 	"sync"
-	"time"
 
 	"google.golang.org/grpc"
 
@@ -250,20 +249,38 @@ func runPullLoop(p pcase) (out string) {
 	}
 	if p.N == 0 {
 		// no members: All over nothing returns at once, there is nobody to deliver a message
-		select {
-		case <-done:
-		case <-time.After(adapterWait):
+		// (the process is quiescent here: a subscription that has not returned by now never will)
+		if !await(base, func() bool {
+			select {
+			case <-done:
+				return true
+			default:
+				return false
+			}
+		}) {
 			return "!stuck:empty-group-does-not-return"
 		}
 		return "fwd=" + dash(strings.Join(rec.list(), ",")) + " end=harness"
 	}
 	for k, e := range p.Events {
-		select {
-		case chs[e.Member] <- e.Vals:
-		case err := <-done:
-			return ended(err, k)
-		case <-time.After(adapterWait):
+		var endErr error
+		took, over := false, false
+		if !await(base, func() bool {
+			select {
+			case chs[e.Member] <- e.Vals:
+				took = true
+				return true
+			case endErr = <-done:
+				over = true
+				return true
+			default:
+				return false
+			}
+		}) {
 			return fmt.Sprintf("!stuck:member-not-receiving-at-event-%d", k)
+		}
+		if over && !took {
+			return ended(endErr, k)
 		}
 		if _, ok := waitQuietOutside(base); !ok {
 			return fmt.Sprintf("!stuck:event-%d", k)
@@ -275,9 +292,14 @@ func runPullLoop(p pcase) (out string) {
 		}
 	}
 	cancel()
-	select {
-	case <-done:
-	case <-time.After(adapterWait / 3):
+	if !await(base, func() bool {
+		select {
+		case <-done:
+			return true
+		default:
+			return false
+		}
+	}) {
 		return "!stuck:does-not-end-on-cancel"
 	}
 	waitQuietOutside(base)
